@@ -10,18 +10,19 @@ Tie, per explored expression list es (recipes evaluated on the library):
     tree_cse() -- shape, faithfulness (the model of __eq__ on the dump of the library's own back-substitution
     reduced.subs(reps last-to-first)), freshness, acyclicity, closedness.  This is PER-INSTANCE validation of the
     outputs (it covers opt_cse / match_common_args, which are not modelled), not a universal statement;
-  * the extracted MODEL of tree_cse recomputes (a) tree_cse(es) with empty opt_subs and (b) tree_cse(es) with the
-    opt_subs the library's opt_cse returned, and both are compared EXACTLY (replacement list and reduced expressions,
-    Add dictionaries sorted) with what the library returned -- including crashes;
+  * the extracted MODEL recomputes (a) tree_cse(es) with empty opt_subs, (b) tree_cse(es) with the opt_subs the
+    library's opt_cse returned, (c) opt_cse(es) itself (OptsCSEVisitor + match_common_args with its FuncArgTracker:
+    coq/C37/CseOpt.v) and (d) the whole cse(es); all four are compared EXACTLY (replacement list, reduced expressions,
+    the set of opt_subs entries; Add dictionaries sorted) with what the library returned -- including crashes;
   * the driver evaluates the property oracle directly on the library's outputs (eq both ways, symbol sets by its own
     get_args walk), independent of the model.
 """
 import os
 import vlib
 
-OWN_FILES = ["C37/CseModel.v", "C37/CseLib.v", "C37/CseCheck.v", "C37/CseSpec.v", "C37/CseCheckProofs.v",
+OWN_FILES = ["C37/CseModel.v", "C37/CseLib.v", "C37/CseCheck.v", "C37/CseOpt.v", "C37/CseOptLib.v", "C37/CseSpec.v", "C37/CseCheckProofs.v",
              "C37/CseNames.v", "C37/CseProofs.v", "C37/CseFlow.v", "C37/CseSem.v", "C37/CseLibProofs.v",
-             "C37/CseExcl.v", "C37/CseRefuted.v"]
+             "C37/CseExcl.v", "C37/CseOptProofs.v", "C37/CseRefuted.v"]
 SHARED_DEPS = ["Expr/IO.vo", "Expr/Arith.vo", "Expr/CmpProofs.vo", "Expr/HashProofs.vo", "C39/QueryModel.vo", "C39/ArgsDown.vo", "C39/OccProofs.vo"]
 PROOF_MODULES = []   # C37 files are not in coq/_CoqProject yet: compiled directly by build_own (see the report)
 OBLIGATIONS = []     # filled below from the P_*.v files that exist
@@ -48,7 +49,7 @@ def build_own(ctx):
                 continue
             rc, out = vlib.sh(["timeout", "1800", "coqc", "-Q", ".", "SE", "-w", "-notation-overridden", f], cwd=coq, timeout=1830)
             if rc != 0:
-                kind = "correspondence" if f in OWN_FILES[:3] else "proof"
+                kind = "correspondence" if f in OWN_FILES[:5] else "proof"
                 ctx.broken.append({"kind": kind, "name": f, "detail": out[-2500:]})
                 return False
             newest = max(newest, os.path.getmtime(vo))
@@ -95,7 +96,7 @@ CORPUS = [
     "(addv (mul (i 2) x) (mul (i 3) y) z) ;; (addv (mul (i 2) x) (mul (i 3) y) w)",
     # known finding: regrouping a sum changes its canonical form (b + z - (b + z) is a canonical Add, the regrouped sum cancels)
     "(addv (neg (addv b z)) y (addv b z)) ;; (f1 sin (addv b z))",
-    # known findings: in-band function names, Piecewise conditions
+    # known finding: in-band function names; regression cases of the fixed Piecewise-condition defect
     "(fs add x y) ;; (i 1)",
     "(fs mul x y) ;; (fs mul x y)",
     "(fs pow x y) ;; (f1 sin (fs pow x y))",
@@ -204,8 +205,6 @@ def classify(cls, hints, detail=""):
     """violation key for an oracle class, using the driver's hints about the input"""
     if cls in ("unfaithful", "crash") and "reserved-funsym" in hints:
         return "C37/%s:funsym-named-add-mul-pow" % cls
-    if cls == "unfaithful" and "piecewise" in hints:
-        return "C37/unfaithful:piecewise-condition-replaced"
     if cls == "unfaithful" and detail.startswith("expand-equal"):
         return "C37/unfaithful:regrouped-sum-other-canonical-form"
     return "C37/" + cls
@@ -278,7 +277,8 @@ def explore(ctx, drv, model, cases, stats, search=False):
                               "the proved checker rejects the outputs of %s on es = [%s]: %s; outputs: %s" % (
                                   "cse" if tag == "C" else "tree_cse", cases[i], cls, sec.get(tag, "")[:400]), rep)
         # ---- exact correspondence of the tree_cse model
-        for fld, what in (("T0", "tree_cse with empty opt_subs"), ("T1", "tree_cse with the library's opt_subs (= cse)")):
+        for fld, what in (("T0", "tree_cse with empty opt_subs"), ("T1", "tree_cse with the library's opt_subs (= cse)"),
+                          ("OP", "opt_cse (OptsCSEVisitor + match_common_args)"), ("CS", "cse = opt_cse ; tree_cse")):
             st = f[fld]
             if st == "OK":
                 ctx.cov["evaluations"] += 1
@@ -289,10 +289,10 @@ def explore(ctx, drv, model, cases, stats, search=False):
                 nbroken += 1
                 if nbroken <= 3:
                     ctx.broken.append({"kind": "correspondence", "name": "C37 " + what,
-                                       "detail": "case `%s`\nmodel: %s\nlibrary: %s" % (cases[i], st[:600], sec.get("T" if fld == "T0" else "C", "")[:600])})
+                                       "detail": "case `%s`\nmodel: %s\nlibrary: %s" % (cases[i], st[:600], sec.get({"T0": "T", "OP": "O"}.get(fld, "C"), "")[:600])})
                 ctx.violation("C37/model-mismatch:" + fld,
                               "library and proved model of %s disagree on es = [%s]: model %s | library %s" % (
-                                  what, cases[i], st[:300], sec.get("T" if fld == "T0" else "C", "")[:300]), rep)
+                                  what, cases[i], st[:300], sec.get({"T0": "T", "OP": "O"}.get(fld, "C"), "")[:300]), rep)
         st = f.get("BS", "NA")
         stats["backsubst_" + ("agrees" if st == "OK" else "outside_model" if st in ("UNMODELLED", "NA", "FUEL") else "differs")] = \
             stats.get("backsubst_" + ("agrees" if st == "OK" else "outside_model" if st in ("UNMODELLED", "NA", "FUEL") else "differs"), 0) + 1
@@ -345,13 +345,16 @@ def run(ctx):
     drv = ctx.build_driver("c37_driver")
     model = ctx.build_model("C37", "C37/Extract.v", "c37_main.ml", "semodel", extra_ml=["expr_io.ml"])
     q = ctx.tier == "quick"
-    ncases = int(os.environ.get("C37_NCASES", 1500 if q else 60000))
+    ncases = int(os.environ.get("C37_NCASES", 1000 if q else 30000))
     cases = list(CORPUS) + [gen_case(ctx.rng) for _ in range(ncases)]
     stats = {}
     explore(ctx, drv, model, cases, stats)
     if ctx.broken and not ctx.violations:
         explore(ctx, drv, model, [gen_case(ctx.rng) for _ in range(8000)], stats, search=True)
     ctx.cov["distinct_nontrivial"] = len(stats.get("nontrivial", ()))
+    if stats.get("backsubst_differs"):
+        ctx.notes.append("the model's homomorphic back-substitution (CseCheck.backsubst over the library constructors) differs from the "
+                         "library's subs() on %d cases (informational: subs() is a different code path, e.g. Derivative/Subs nodes)" % stats["backsubst_differs"])
     for k, v in sorted(stats.items()):
         if k != "nontrivial":
             ctx.cov[k] = v
@@ -363,8 +366,10 @@ def run(ctx):
                        "library outputs + exact model/library comparisons that were inside the model; a case is non-trivial when cse() returned "
                        "at least one replacement; distinct = distinct input dump lists")
     ctx.assumptions += [
-        "the checker validates the outputs of cse()/tree_cse() PER INSTANCE (every explored input); it is not a universal statement about "
-        "opt_cse / match_common_args, which are not modelled (their result opt_subs is read from the library and fed to the tree_cse model)",
+        "the checker validates the outputs of cse()/tree_cse() PER INSTANCE (every explored input); the universal theorems are about tree_cse "
+        "with empty opt_subs; opt_cse / match_common_args are modelled and compared exactly with the library (OP, CS) but have no theorems of their own",
+        "std::sort in match_common_args is modelled as the stable insertion sort libstdc++ runs for at most 16 elements; more than 16 collected "
+        "Adds or Muls are outside the model",
         "faithfulness is judged on the library's own back-substitution reduced.subs(reps last-to-first): by the library's eq in the driver's "
         "oracle and by the model of __eq__ (C01) on the dumps in the extracted checker",
         "std::set<RCPBasicKeyLess> used only through find(): modelled as 'some stored key is equivalent' (valid for a strict weak order, C02); "
